@@ -1609,15 +1609,17 @@ func (p *policiesCfg) addWAFConfig(
 		p.WAF.ApBundle = bundlePath
 	}
 
-	if waf.SecurityLog != nil && waf.SecurityLogs == nil {
+	// the Policy is shared with the informer store: the deprecated field is folded into a local list
+	securityLogs := waf.SecurityLogs
+	if waf.SecurityLog != nil && securityLogs == nil {
 		nl.Debug(l, "the field securityLog is deprecated and will be removed in future releases. Use field securityLogs instead")
-		waf.SecurityLogs = append(waf.SecurityLogs, waf.SecurityLog)
+		securityLogs = []*conf_v1.SecurityLog{waf.SecurityLog}
 	}
 
-	if waf.SecurityLogs != nil {
+	if securityLogs != nil {
 		p.WAF.ApSecurityLogEnable = true
 		p.WAF.ApLogConf = []string{}
-		for _, loco := range waf.SecurityLogs {
+		for _, loco := range securityLogs {
 			logDest := generateString(loco.LogDest, defaultLogOutput)
 
 			if loco.ApLogConf != "" {
